@@ -610,6 +610,8 @@ def audit_key_type(ctx) -> None:
 
 
 def run(ctx) -> None:
+    from .common import forwarding_discipline
+    ctx.guard(forwarding_discipline, "R06.7", ['key', 'public_key', 'private_key', 'find_key', 'operation', 'recipient'], 51)  # arguments are handed on under their own name (generic routing rule, rules/common.py)
     from .c14 import r14_10
     ctx.guard_as("R06.6", r14_10)  # raw key text given to an operation reaches the unsafe-text warning (OctKey.import_key), no direct construction
     ctx.guard(r06_1)
